@@ -13,9 +13,12 @@ set_option linter.unusedSimpArgs false
 set_option linter.unusedVariables false
 
 theorem l3_full_none : L3Full .none := by l3_full
-theorem l3_pre_none : L3Pre .none := by l3_pre
+theorem l3_pre_lt_none : L3PreO .none .lt := by l3_pre
+theorem l3_pre_eq_none : L3PreO .none .eq := by l3_pre
+theorem l3_pre_gt_none : L3PreO .none .gt := by l3_pre
 theorem l3_part_none : L3Part .none := by l3_part
 
-theorem l3_npm_none : L3Npm .none := l3_assemble _ l3_full_none l3_pre_none l3_part_none
+theorem l3_npm_none : L3Npm .none :=
+  l3_assemble _ l3_full_none (l3_pre_assemble _ l3_pre_lt_none l3_pre_eq_none l3_pre_gt_none) l3_part_none
 
 end DepsDev.Proofs.C03
